@@ -234,6 +234,16 @@ def base_shapes():
         ],
     ))
     S.append(dict(
+        name="surrogate_time",
+        params=[("k1", None)],
+        vars=[("x", None), ("y", None)],
+        derived=[("dst", R.add, ["to", "k1"])],
+        reactions=[("v1", R.mass_action_1s, ["dst", "k1"], {"y": -1})],
+        surrogates=[
+            ("sur", "mock", R.two_outputs, ["x", "time"], ["tf", "to"], {"tf": {"x": -1, "y": 1}}),
+        ],
+    ))
+    S.append(dict(
         name="surrogate_qss",
         params=[("k1", None)],
         vars=[("x", None), ("y", None)],
